@@ -67,7 +67,9 @@ def c14(tier, seed):
     obs += vo
     so, scmd, slog, _ = units_verus.run_unit("var_string")
     obs += so
-    cmd = cmd + " ; " + vcmd + " ; " + scmd
+    ro, rcmd, rlog, _ = units_verus.run_unit("raw_type")
+    obs += ro
+    cmd = cmd + " ; " + vcmd + " ; " + scmd + " ; " + rcmd
     prep = [prep] + [dict(l, unit="fn_abi") for l in vlog] + [dict(l, unit="var_string") for l in slog]
     meta = {
         "checker_cmd": cmd,
@@ -77,6 +79,7 @@ def c14(tier, seed):
         "functions_under_contract": [
             "bindgen/features.rs: RustTarget::stable, RustTarget::minor, RustTarget::is_compatible, RustFeatures::new, RustFeatures::new_with_latest_edition, RustEdition::is_available, RustTarget::latest_edition, RustEdition::from_str (literal inputs), LATEST_STABLE_RUST, EARLIEST_STABLE_RUST",
             "bindgen/ir/function.rs: FunctionSig::abi, FunctionSig::is_variadic (Verus unit fn_abi: the ABI gating site; override lookup = one uninterpreted accessor)",
+            "bindgen/codegen/helpers.rs: ast_ty::raw_type (Verus unit raw_type: ::core::ffi::X only when core_ffi_c)",
             "bindgen/codegen/mod.rs: the VarType::String arm of <Var as CodeGenerator>::codegen (Verus unit var_string: block extracted by rule R18; each token template is an env constructor recording the gated feature its text uses) + BindgenContext::trait_prefix",
         ],
         "extraction": [{"mode": "path", "file": "bindgen/features.rs", "rewrites": 0}] + prep,
@@ -85,7 +88,7 @@ def c14(tier, seed):
             "RustTarget::from_str and RustTarget::default() (rustc --version probing) are not under contract",
         ],
         "unverified": [
-            "that the remaining code-generation sites consult their flag (codegen/mod.rs unsafe_extern_blocks / offset_of / ptr_metadata / layout_for_ptr, helpers.rs raw_type core_ffi_c): only FunctionSig::abi and the string-constant arm are under contract",
+            "that the remaining code-generation sites consult their flag (codegen/mod.rs unsafe_extern_blocks / offset_of / ptr_metadata / layout_for_ptr): only FunctionSig::abi, raw_type and the string-constant arm are under contract",
             "edition validation inside Builder::generate (lib.rs)",
         ],
     }
